@@ -311,8 +311,9 @@ def main(ctx: Ctx) -> int:
     rng = random.Random(ctx.seed)
     traces = []
     n = 40 if ctx.quick else 600
-    for k in range(n):
-        case = gen_upper_case(rng) if k % 4 == 3 else gen_case(rng)
+    allc = [gen_upper_case(rng) if k % 4 == 3 else gen_case(rng) for k in range(n)]
+    allc += [dict(c_) for c_ in allc[:8]]        # second pass: the first networks again at the end of the run
+    for k, case in enumerate(allc):
         try:
             net = build(case)
             traces.append(make_trace(ctx, len(traces) + 1, case, net, k))
@@ -322,14 +323,14 @@ def main(ctx: Ctx) -> int:
     for bcase in ({"reactions": [(["GRAIN0", "e-"], ["GRAIN0-"]), (["C+", "GRAIN-"], ["C", "GRAIN"]), (["H", "H"], ["H2"])], "required": [], "incremental": False},
                   {"reactions": [(["C+", "GRAIN-"], ["C", "GRAIN"]), (["H", "H"], ["H2"])], "required": ["GRAIN0", "GRAIN0-"], "incremental": True}):
         try:
-            traces.append(make_trace(ctx, len(traces) + 1, bcase, build(bcase), n + 1 + len(traces)))
+            traces.append(make_trace(ctx, len(traces) + 1, bcase, build(bcase), n + 101 + len(traces)))
         except Exception as e:  # noqa
             ctx.violation(f"C09|Render|{type(e).__name__}|grain spellings", f"{type(e).__name__}: {e}", {"case": bcase})
     # two grain populations: the element table (recorded finding when it fails)
     gcase = {"reactions": [(["GRAIN1", "e-"], ["GRAIN1-"]), (["GRAIN2", "e-"], ["GRAIN2-"]), (["H", "H"], ["H2"])], "required": [], "incremental": False}
     POOL.update({"GRAIN1": ("GRAIN1", False, 0, 0), "GRAIN1-": ("GRAIN1", False, 0, -1), "GRAIN2": ("GRAIN2", False, 0, 0), "GRAIN2-": ("GRAIN2", False, 0, -1)})
     try:
-        traces.append(make_trace(ctx, len(traces) + 1, gcase, build(gcase), n))
+        traces.append(make_trace(ctx, len(traces) + 1, gcase, build(gcase), n + 100))
     except Exception as e:  # noqa
         ctx.violation(f"C09|Render|{type(e).__name__}|grains", f"{type(e).__name__}: {e}", {"case": gcase})
     v = validate_traces(ctx, "Trace_Index.tla", "Trace_Index.cfg", [{k2: t[k2] for k2 in ("tid", "species", "ev")} for t in traces], "idx")
